@@ -7,7 +7,7 @@ import ast
 from mpsa.cfg import CFG, Node, calls_in, const_truth, header_expr, walk_shallow
 from mpsa.flow import fmt_path, held_locks, path_avoiding, reachable
 from mpsa.loader import dotted, norm_text
-from mpsa.match import Scope, has_timeout, is_name, is_none, method_of, walk_shallow_func
+from mpsa.match import Scope, has_timeout, is_name, is_none, kwarg, method_of, walk_shallow_func
 from mpsa.report import Checker
 
 from .common import TEE, build_cfg, make_fallible
@@ -225,3 +225,18 @@ def run(ck: Checker):
         if not (isinstance(cmp_.ops[0], ast.Eq) and dotted(cmp_.comparators[0]) == 'self.n_forks'):
             probs.append(f'the pop is guarded by `{norm_text(cmp_)}`, not by `count == number of forks`')
     ck.ob('C10-5', f, inc.ast, not probs, '; '.join(probs) if probs else f'increment, comparison with `self.n_forks` and window pop all inside one `{elock}` region')
+    # ------------------------------------------------------------ C10-7
+    ck.rule('C10-7', 'window size and exhaustion: the window queue has exactly `buffer_size` slots (the bound on how far the fastest fork can run ahead of the slowest), and the end of the source is recognised by StopIteration only — `next(source, default)` would take an element equal to the default (e.g. None) for the end, so that forks see different streams', minimum=2)
+    from .linear import linear_form
+
+    tf = ck.repo.func(TEE, 'tee')
+    qc = [n for n in walk_shallow_func(tf.node) if isinstance(n, ast.Call) and (dotted(n.func) or '').split('.')[-1] in ('Queue', 'SingleLane')]
+    ck.need(qc, f'{tf.key}: window queue not found')
+    arg = qc[0].args[0] if qc[0].args else kwarg(qc[0], 'maxsize')
+    lf = linear_form(arg, tf) if arg is not None else None
+    okq = lf is not None and lf[0] == 1 and lf[1] == 0 and lf[2] == 'buffer_size'
+    ck.ob('C10-7', tf, qc[0], okq, 'the window holds exactly `buffer_size` elements' if okq else f'the window queue is created with `{norm_text(arg) if arg is not None else "no size"}`, not `buffer_size`: the source can be pulled further ahead of the slowest fork than documented (or without bound)')
+    nx = [n for n in walk_shallow_func(f.node) if isinstance(n, ast.Call) and dotted(n.func) == 'next' and n.args and (dotted(n.args[0]) or '').endswith('instream')]
+    ck.need(nx, f'{f.key}: no pull from the source')
+    bad = [n for n in nx if len(n.args) > 1 or n.keywords]
+    ck.ob('C10-7', f, nx[0], not bad, f'all {len(nx)} pulls end on StopIteration only' if not bad else f'L{bad[0].lineno}: `{norm_text(bad[0])}` uses an in-band default: a source element equal to it is taken for exhaustion — the fork that pulled it ends early while its peers skip that element and go on (different streams, and the survivor blocks on the full window)')
